@@ -243,7 +243,8 @@ func (c *shardedMap) Walk(walkFn func(e Entry) error) (int, error) {
 		for _, v := range c.hashedBuckets[i].data {
 			b.RUnlock()
 
-			err := walkFn(v)
+			// Passing a snapshot, expiration and counter of live entry may be updated concurrently.
+			err := walkFn(TraitEntry{K: v.K, V: v.V, E: atomic.LoadInt64(&v.E), C: atomic.LoadInt64(&v.C)})
 			if err != nil {
 				return n, err
 			}
